@@ -12,7 +12,7 @@ MANIFEST = {
             '2 books x 2 sheets, every constant kind at every constant, is loaded by dictionary and from real .xlsx files and calculated; every cell is '
             'compared with an independent lazy reference evaluator. For each shape the dictionary insertion order (all adjacent transpositions, rotations, reversal; '
             'all permutations for small dictionaries), book load order, sheet order and the order of range assembly (all permutations at the seam) are permuted, '
-            'and a fixed sub-family is recomputed in fresh interpreters under PYTHONHASHSEED 0..7 (thorough 0..31). Hand-written workbooks add wiring patterns the family cannot express: one range feeding two operands of one formula (inside pre-computed unions/intersections), names of a linked book used by that book\'s formulas and loaded through completion only, the same sheet name in two books, array formulas whose result shape differs from their range (row into column, 2x3 into 3x2) with readers sorting before and after them under every insertion order, numeric external links [n]Sheet!A1 with unloadable entries before/after the real book in the link table.',
+            'and a fixed sub-family is recomputed in fresh interpreters under PYTHONHASHSEED 0..7 (thorough 0..31). Hand-written workbooks add wiring patterns the family cannot express: one range feeding two operands of one formula (inside pre-computed unions/intersections), names of a linked book used by that book\'s formulas and loaded through completion only, the same sheet name in two books, array formulas whose result shape differs from their range (row into column, 2x3 into 3x2) with readers sorting before and after them under every insertion order, numeric external links [n]Sheet!A1 with unloadable entries before/after the real book in the link table.' ' Later additions: hand-written workbooks for array formulas that do not fit their range, numeric external links, spill anchors reached on demand only (lazy-array, wide-array); workbooks with whole-column references run in a memory-bound space of their own (fresh child per case).',
     'note': 'Trusted: ref/wbeval.py + ref/scalar.py for the vocabulary + - * & SUM, cell/range/whole-column/name/array-formula references. '
             'Sheet-local names are out of scope (loader skips them by design).',
 }
